@@ -462,7 +462,9 @@ func authorizeAnyChannel(princ Principal, channels base.Set) error {
 				return nil
 			}
 		}
-	} else if princ.Channels().Contains(ch.UserStarChannel) {
+	} else if canSee, err := princ.canSeeChannel(ch.UserStarChannel); err != nil {
+		return err
+	} else if canSee {
 		return nil
 	}
 	return princ.UnauthError(errUnauthorized)
